@@ -107,11 +107,12 @@ def main(argv=None):
     ap.add_argument("props", nargs="*")
     ap.add_argument("--jobs", type=int, default=16)
     ap.add_argument("--only")
+    ap.add_argument("--cross", action="store_true", help="also run every benign patch under the other properties whose code it touches")
     ap.add_argument("-v", action="store_true")
     a = ap.parse_args(argv)
     cat = load_catalog()
     props = {p.upper() for p in a.props}
-    sel = [m for m in cat if (not props or m["prop"] in props) and (not a.only or a.only in m["name"])]
+    sel = [m for m in cat if (not props or m["prop"] in props) and (not a.only or a.only in m["name"]) and (a.cross or not m.get("cross"))]
     res = run_many(sel, a.jobs)
     bad = 0
     for r in res:
